@@ -269,7 +269,13 @@ def configure(cfg):
 
 
 def configure_many(cfgs):
-    todo = [c for c in cfgs if c.name not in _BUILDS]
+    todo, seen = [], set()
+    for c in cfgs:
+        # the same configuration may be listed twice (analysed with different extra flags): configure it once,
+        # two cmake runs into one directory race
+        if c.name not in _BUILDS and c.name not in seen:
+            seen.add(c.name)
+            todo.append(c)
     with cf.ThreadPoolExecutor(max_workers=JOBS) as ex:
         futs = [ex.submit(configure, c) for c in todo]
         cf.wait(futs)             # let every cmake finish before an error propagates
@@ -366,10 +372,16 @@ def lower(build, group="lib", level="O0", langs=("c", "c++"), extra=(),
 
 def lower_many(jobs):
     """jobs: list of (build, kwargs).  Runs lowerings concurrently."""
-    with cf.ThreadPoolExecutor(max_workers=max(1, min(4, len(jobs)))) as ex:
-        futs = [ex.submit(lower, b, **kw) for b, kw in jobs]
-        cf.wait(futs)
-    return [f.result() for f in futs]
+    def keyof(b, kw):
+        return (b.cfg.name, kw.get("group", "lib"), kw.get("level", "O0"), tuple(kw.get("langs", ("c", "c++"))),
+                tuple(kw.get("extra", ())), kw.get("scev", False))
+    uniq = {}
+    for b, kw in jobs:
+        uniq.setdefault(keyof(b, kw), (b, kw))      # identical jobs share one output directory: run once
+    with cf.ThreadPoolExecutor(max_workers=max(1, min(4, len(uniq)))) as ex:
+        futs = {k: ex.submit(lower, b, **kw) for k, (b, kw) in uniq.items()}
+        cf.wait(list(futs.values()))
+    return [futs[keyof(b, kw)].result() for b, kw in jobs]
 
 
 def preprocess(unit, extra=(), linemarkers=True):
